@@ -82,4 +82,30 @@ void harness(void) {
                           includes=['wf.h', 'view.h', 'add_spec.h', 'query_spec.h', 'reorder_spec.h', 'shapes.h'], copies=[TK], defines=d, unwind=26, adaptive_unwind=False, covers=1, timeout=600, enum=[('ENUM_Q', range(24)), ('ENUM_REV', range(2))],
                           inits={'tk_init': TK}, prebuild_shape=shid, bounds=dict(shape=sh, edge=eh, initial_order='every permutation of the incident list of the first halfedge (48 enumerated instances, one CBMC run each), the second list as built or reversed'),
                           note='rotational order after the real reorder_incident_halffaces on the constructive shape "%s", edge %d, starting from every order of its incident-halfface list' % (sh, eh)))
+    # rotational order after switching the edge incidences off and on again (face incidences stay on): the real
+    # enable_edge_bottom_up_incidences recomputes the lists and must leave them in rotational order
+    for sh, shid, extra, eh in (('twotets', 2, {}, 1),):      # the open fan of three tets works the same way but needs more than an hour of adaptive unwinding: not registered
+        n = 'enable_edge.order.%s' % sh
+        d = dict(DEFS); d.update(extra)
+        h = '''
+void harness(void) {
+  TK m; { static const int W0[] = {SHAPE_W}; int aa[4]; unwitness(W0, &m, aa); }
+  const int h = %(eh)d;
+  int cnt = (int)INCN(&m, 2 * h);
+  __CPROVER_assume(cnt >= 3 && cnt <= 4 && m.f_bottom_up_);
+  COVER(1, "the chosen edge has at least three incident faces"); COVER_END;
+  TopologyKernel__enable_edge_bottom_up_incidences(&m, 0);
+  __CPROVER_assert(m.incident_hfs_per_he_.size == 0 && !m.e_bottom_up_, "C12.%(n)s.disabled_means_empty");
+  TopologyKernel__enable_edge_bottom_up_incidences(&m, 1);
+  __CPROVER_assert(m.e_bottom_up_ && wf(&m), "C12.%(n)s.re_enabled_and_well_formed");
+  int L1[4] = {0, 0, 0, 0}; for (int i = 0; i < 4; i++) if (i < cnt) L1[i] = INC(&m, 2 * h, i);
+  __CPROVER_assert((int)INCN(&m, 2 * h) == cnt && spec_ordered3(&m, 2 * h, L1, cnt), "C09.%(n)s.halffaces_in_rotational_order_after_re_enabling_the_edge_incidences");
+  _Bool mirror = 1; for (int i = 0; i < 4; i++) if (i < cnt && INC(&m, 2 * h + 1, i) != (INC(&m, 2 * h, cnt - 1 - i) ^ 1)) mirror = 0;
+  __CPROVER_assert(mirror, "C09.%(n)s.opposite_halfedge_reports_the_mirrored_reverse_sequence");
+}
+''' % dict(n=n, eh=eh)
+        obs.append(Ob(id='C09.' + n, props=['C09', 'C12'], quick_for=['C09'] if sh == 'twotets' else [], tu='kernel', tier='B', roots=[TK + '::reorder_incident_halffaces', TK + '::enable_edge_bottom_up_incidences'] + ROOTS_BUILD, harness=h,
+                      includes=['wf.h', 'view.h', 'add_spec.h', 'query_spec.h', 'reorder_spec.h', 'shapes.h'], copies=[TK], defines=d, unwind=44, unwind_start=10, covers=1, timeout=3000,
+                      inits={'tk_init': TK}, prebuild_shape=shid, bounds=dict(shape=sh, edge=eh),
+                      note='edge incidences switched off and on again on the constructive shape "%s": the recomputed incident-halfface lists of edge %d are in rotational order' % (sh, eh)))
     return obs
